@@ -268,7 +268,10 @@ CLAIMED = {
         text="Proved in Lean for every namespace, base name and length limit: the name flatname returns is not in the namespace it was told "
         "to avoid; it is the joined base name followed by underscores only, every shorter variant being taken; it fails only when base name "
         "plus one underscore per name to avoid would exceed the limit (a clash is resolved by a fresh name or by raising, never by "
-        "capture); inserting under it keeps every existing name. That every call site (create_source, replace_noconn named or not, "
+        "capture); inserting under it keeps every existing name; the names invented in one batch (bundle members, array elements, instance-bundle "
+        "members: each named against the live namespace and inserted before the next) are distinct from the module's names and from each other, "
+        "and the namespace afterwards is the old one plus exactly those (inventAll_spec; the model's names are compared, in order, with the names "
+        "the real passes choose for adversarially named modules). That every call site (create_source, replace_noconn named or not, "
         "replace_bundle_inst, array elements, instance-bundle members) passes the live namespace, and that designer objects keep their "
         "bindings and connections, is decided by correspondence: designer names are renamed to exactly the names the elaborator would "
         "invent for that design (one at a time, the invented names recomputed after each; trailing-underscore variants; names at the 511-character "
